@@ -459,6 +459,8 @@ func c04Enum(c *core.Ctx, p c04Params) {
 		c04NoQueue(c, "svc")
 		c04NoQueue(c, "a.b")
 		c04NoQueue(c, "")
+		c04Restart(c, 1)
+		c04Restart(c, 3)
 	}
 	// missing resources / unknown types of subject
 	for _, subj := range []string{"get.svc.zzz", "call.svc.zzz.do", "auth.svc.zzz.login", "access.svc.zzz", "get.svc", "call.svc.m", "get.svc.m.x.y.z", "call.svc.m.x.y.z.do"} {
@@ -541,6 +543,96 @@ func c04NoQueue(c *core.Ctx, name string) {
 			}
 		}
 	}
+}
+
+// c04Restart: requests to resources whose work was still queued when the
+// service was stopped must be answered again after the same Service is served
+// again (every request of the second run gets exactly one response).
+func c04Restart(c *core.Ctx, workers int) {
+	hold := make(chan struct{})
+	var holding int32
+	rg := newRig("svc", func(s *res.Service) {
+		s.SetWorkerCount(workers)
+		s.Handle("r.$id", res.Access(res.AccessGranted), res.GetModel(func(r res.ModelRequest) {
+			if strings.HasPrefix(r.PathParam("id"), "block") && atomic.LoadInt32(&holding) == 1 {
+				<-hold
+			}
+			r.Model(map[string]string{"id": r.PathParam("id")})
+		}), res.Call("do", func(r res.CallRequest) { r.OK(nil) }))
+	})
+	if err := rg.start(); err != nil {
+		c.Inconclusive("service failed to start: " + err.Error())
+		return
+	}
+	for cycle := 0; cycle < 6; cycle++ {
+		atomic.StoreInt32(&holding, 1)
+		hold = make(chan struct{})
+		// occupy every worker, then queue requests for other resources behind them
+		for w := 0; w < workers; w++ {
+			rg.send(fmt.Sprintf("get.svc.r.block%d", w), nil)
+		}
+		var ids []string
+		for k := 0; k < 5; k++ {
+			id := fmt.Sprintf("q%d", k)
+			ids = append(ids, id)
+			rg.send("get.svc.r."+id, nil)
+			rg.send("call.svc.r."+id+".do", nil)
+		}
+		// wait until the work of the other resources is queued behind the busy workers
+		for t := 0; t < 4000; t++ {
+			if _, _, queued, _ := rg.S.VerifState(); queued >= len(ids) {
+				break
+			}
+			time.Sleep(500 * time.Microsecond)
+		}
+		_, _, queuedAtStop, _ := rg.S.VerifState()
+		c.Max("work_items_queued_at_stop", int64(queuedAtStop))
+		stopped := make(chan struct{})
+		go func() { rg.stop(); close(stopped) }()
+		time.Sleep(2 * time.Millisecond)
+		atomic.StoreInt32(&holding, 0)
+		close(hold)
+		if !waitCh(stopped, 25*time.Second) {
+			c.Inconclusive("restart scenario: Shutdown did not complete")
+			return
+		}
+		if err := rg.restart(); err != nil {
+			c.Inconclusive("restart failed: " + err.Error())
+			return
+		}
+		for _, id := range append(ids, "block0", "fresh") {
+			for _, subj := range []string{"get.svc.r." + id, "call.svc.r." + id + ".do", "access.svc.r." + id} {
+				start := rg.C.Len()
+				inbox, done, delivered := rg.send(subj, nil)
+				c.Eval(1)
+				c.Obs("requests_after_restart", 1)
+				w := map[string]interface{}{"subject": subj, "cycle": cycle, "workers": workers, "scenario": "request for a resource whose work was queued when the service was stopped, sent after Serve was called again"}
+				if delivered != 1 {
+					c.Violation("C04/not-delivered-once", fmt.Sprintf("request %s was delivered to %d subscriptions after the restart", subj, delivered), w)
+					continue
+				}
+				if !waitCh(done, 5*time.Second) {
+					// decided on state: nothing is queued for the workers (they have nothing to do),
+					// yet the request's callback sits in a work item that no worker will ever see
+					_, _, queued, groups := rg.S.VerifState()
+					if queued == 0 && groups > 0 {
+						w["queued"], w["groups"] = queued, groups
+						c.Violation("C04/no-response:after-restart", fmt.Sprintf("request %s sent after the restart is never processed: the work queue is empty while %d group work items exist that no worker holds", subj, groups), w)
+						rg.stop()
+						return
+					} else {
+						c.Inconclusive("restart scenario: request.done not seen for " + subj)
+					}
+					continue
+				}
+				if resp, _ := replies(rg.C.Since(start), inbox); len(resp) != 1 {
+					c.Violation("C04/no-response:after-restart", fmt.Sprintf("request %s sent after the restart got %d responses", subj, len(resp)), w)
+				}
+				c.Distinct(fmt.Sprintf("restart/w%d/%d/%s", workers, cycle, subj))
+			}
+		}
+	}
+	rg.stop()
 }
 
 func subjectsOf(subs []vconn.Sub) []string {
